@@ -192,6 +192,39 @@ def _norm_value(e):
     return None
 
 
+def writers_copy_lxml_values(ctx, rule, used_in=None, floor=3):
+    """C05.R4 (shared with C07: a response tree that is built keeps its elements while the next one is built)."""
+    repo = ctx.repo
+    desc = [q for q in repo.classes if q.startswith(XSTRUCT + '.') and f'{XSTRUCT}._XmlStructureBaseProperty' in repo.mro(q)]
+    n_att = 0
+    if used_in is not None:
+        # only the member kinds that the classes of the given modules declare (e.g. the MDIB containers)
+        names = {call_name(c) for m in repo.modules.values() if m.name.startswith(tuple(used_in))
+                 for c in ast.walk(m.tree) if isinstance(c, ast.Call)}
+        desc = [q for q in desc if q.rsplit('.', 1)[1] in names]
+    for q in sorted(desc):
+        ci = repo.classes[q]
+        wr = ci.methods.get('update_xml_value')
+        if wr is None:
+            continue
+        for c in calls_in(wr.node):
+            if isinstance(c.func, ast.Attribute) and c.func.attr in ('append', 'extend', 'insert') and c.args and \
+                    unparse(c.func.value) in ('sub_node', 'node'):
+                arg = c.args[-1]
+                txt = unparse(arg)
+                if 'py_value' not in txt and 'extension_local_value' not in txt and 'value' not in txt:
+                    continue
+                n_att += 1
+                copies = any(isinstance(x, ast.Call) and (call_name(x) in ('deepcopy', 'copy_node_wo_parent', 'copy_element',
+                                                                          'copy_node', 'fromstring'))
+                             for x in ast.walk(arg))
+                ctx.ob(rule, f'{ci.name}: {unparse(c)[:70]}', copies,
+                       f'{ci.name}: elements are copied before they are attached to the output tree' if copies else
+                       f'{ci.name}: {unparse(c)} attaches the value\'s own lxml elements - lxml moves them: the instance '
+                       f'(and any tree written before) loses them, a second write produces different output', fi=wr, node=c)
+    ctx.floor(rule, n_att, floor, 'lxml attach sites in writers')
+
+
 def run(ctx):  # noqa: C901, PLR0912, PLR0915
     repo = ctx.repo
     ctx.rule('C05.R1', 'declarations agree with the bundled XSD: attribute names, element order, required, enums, implied values')
@@ -402,29 +435,12 @@ def run(ctx):  # noqa: C901, PLR0912, PLR0915
     common.implied_value_only_for_none(ctx, 'C05.R2')
     from .c18 import decimal_lexical_rules
     decimal_lexical_rules(ctx, 'C05.R2')   # xsd:decimal values survive the writer (18 significant digits)
+    from .c18 import exponent_never_written
+    exponent_never_written(ctx, 'C05.R2')
+    from .c12 import defaults_reach_instances_copied
+    defaults_reach_instances_copied(ctx, 'C05.R2')   # the value read for an absent element belongs to the object that was read
     # ------------------------------------------------------------------ R4
-    n_att = 0
-    for q in sorted(desc):
-        ci = repo.classes[q]
-        wr = ci.methods.get('update_xml_value')
-        if wr is None:
-            continue
-        for c in calls_in(wr.node):
-            if isinstance(c.func, ast.Attribute) and c.func.attr in ('append', 'extend', 'insert') and c.args and \
-                    unparse(c.func.value) in ('sub_node', 'node'):
-                arg = c.args[-1]
-                txt = unparse(arg)
-                if 'py_value' not in txt and 'extension_local_value' not in txt and 'value' not in txt:
-                    continue
-                n_att += 1
-                copies = any(isinstance(x, ast.Call) and (call_name(x) in ('deepcopy', 'copy_node_wo_parent', 'copy_element',
-                                                                          'copy_node', 'fromstring'))
-                             for x in ast.walk(arg))
-                ctx.ob('C05.R4', f'{ci.name}: {unparse(c)[:70]}', copies,
-                       f'{ci.name}: elements are copied before they are attached to the output tree' if copies else
-                       f'{ci.name}: {unparse(c)} attaches the value\'s own lxml elements - lxml moves them: the instance '
-                       f'(and any tree written before) loses them, a second write produces different output', fi=wr, node=c)
-    ctx.floor('C05.R4', n_att, 3, 'lxml attach sites in writers')
+    writers_copy_lxml_values(ctx, 'C05.R4')
 
     # ------------------------------------------------------------------ R5 readers
     ctx.rule('C05.R5', 'readers: the class of a polymorphic element is resolved from THAT element; a scalar member that is '
